@@ -96,7 +96,36 @@ fn run(starts: &[u64], period: u64, answer: Option<(usize, u64)>) -> Result<(), 
     Ok(())
 }
 
+// a request is sent while the timer of an earlier one is already overdue (the controller is late): the notification names the
+// overdue request with nothing left, the late timer call then serves it, and both requests run their whole schedule
+fn run_overdue(late_by: u64) -> Result<(), String> {
+    let mut client: StunClient = StunClienteBuilder::new(TransportReliability::Unreliable(RttConfig::default())).build().map_err(|e| format!("{:?}", e))?;
+    let t0 = Instant::now();
+    let a = client.send_request(BINDING, StunAttributes::default(), vec![0; 256], t0).map_err(|e| format!("{:?}", e))?;
+    let _ = client.events();
+    let now = 500 + late_by;
+    let b = client.send_request(BINDING, StunAttributes::default(), vec![0; 256], t0 + ms(now)).map_err(|e| format!("{:?}", e))?;
+    let notes: Vec<(TransactionId, Duration)> = client.events().into_iter().filter_map(|e| if let StunClientEvent::RestransmissionTimeOut(x) = e { Some(x) } else { None }).collect();
+    if notes != vec![(a, ms(0))] { return Err(format!("a request sent {} ms after the first one's timer was due is told {:?}; expected the overdue request with 0 left", late_by, notes)); }
+    client.on_timeout(t0 + ms(now));
+    let ev = client.events();
+    if !ev.iter().any(|e| matches!(e, StunClientEvent::OutputPacket(_))) { return Err(format!("the late timer call at {} ms did not retransmit the overdue request", now)); }
+    // run to the end: both must be reported timed out
+    let mut failed: Vec<TransactionId> = Vec::new();
+    let mut t = now;
+    while t <= 45_000 {
+        t += 100;
+        client.on_timeout(t0 + ms(t));
+        for e in client.events() { if let StunClientEvent::TransactionFailed((id, StunTransactionError::TimedOut)) = e { failed.push(id); } }
+    }
+    if !(failed.contains(&a) && failed.contains(&b) && failed.len() == 2) { return Err(format!("after a late send ({} ms) the requests that timed out are {:?}, expected both", late_by, failed.len())); }
+    Ok(())
+}
+
 fn main() {
+    for late in [1u64, 100, 499] {
+        if let Err(e) = run_overdue(late) { println!("WITNESS: {}", e); std::process::exit(1); }
+    }
     let offs = [0u64, 500, 1000, 1500];
     let mut cases: Vec<Vec<u64>> = Vec::new();
     for a in offs { cases.push(vec![a]); for b in offs { if b >= a { cases.push(vec![a, b]); for c in offs { if c >= b { cases.push(vec![a, b, c]); } } } } }
